@@ -154,6 +154,7 @@ int EGLPNUM_TYPENAME_ILLread_mps (
 	EGLPNUM_TYPENAME_ILLread_mps_state state;
 
 	ILL_IFTRACE ("\tread_mps\n");
+	state.obj = 0;
 	if (ILLsymboltab_create (&lp->rowtab, 100) ||
 			ILLsymboltab_create (&lp->coltab, 100))
 	{
@@ -210,6 +211,7 @@ int EGLPNUM_TYPENAME_ILLread_mps (
 	}
 
 CLEANUP:
+	ILL_IFFREE (state.obj);	/* the copy of the OBJNAME field */
 	ILL_RESULT (rval, "read_mps");
 }
 
